@@ -3341,6 +3341,13 @@ class Evaluator:
         elif isinstance(t, ast.Subscript):
             base = s.ev(t.value, env, mod, depth)
             k = s.ev(t.slice, env, mod, depth) if not isinstance(t.slice, ast.Slice) else None
+            if isinstance(base, dict) and isinstance(k, (str, Poly, Ref)) and s._undecided > 0:
+                # the dictionary object is shared by both arms of an undecided test: a store on one arm holds on that arm only
+                pc_ = [(g_, pol_) for g_, pol_ in s._pc if not isinstance(g_, bool)]
+                if pc_:
+                    kk_ = k if isinstance(k, str) else next((x for x in base if isinstance(x, _HK) and same(x.v, k)), None)
+                    old_ = base.get(kk_) if kk_ is not None and kk_ in base else Opq('?', 'key not set on this path')
+                    val = s.mkcond(s.mkbool('and', [g_ if pol_ else s.negate(g_) for g_, pol_ in pc_]), val, old_)
             if isinstance(base, dict) and isinstance(k, str): base[k] = val
             elif isinstance(base, dict) and isinstance(k, Poly) and k.is_const() and all(not isinstance(x, Opq) for x in base): base[_HK(k)] = val
             elif isinstance(base, dict) and isinstance(k, Ref) and all(not isinstance(x, Opq) for x in base):
